@@ -29,6 +29,17 @@ Theorem C02_rejected_no_effect : forall s t raw s',
 Proof. exact rejected_append_no_effect. Qed.
 Print Assumptions C02_rejected_no_effect.
 
+(* (2b) widths: AppendBatch computes nextOffset = baseOffset + int64(LastOffsetDelta) + 1 in
+       int64 (the int32 header field is widened BEFORE the +1). For every accepted record set
+       (bytes in 0..255) the delta is in [0, 2^31) and, while offsets are below 2^62, the Go
+       computation [advance_go] does not wrap and equals the model's base + delta + 1, which
+       is strictly above base. (An int32 "+1" would give -2^31 for delta = 2^31-1.) *)
+Theorem C02_no_wrap : forall raw lod cnt base,
+  Forall is_byte raw -> parse_hdr raw = Some (lod, cnt) -> 0 <= base < 4611686018427387904 ->
+  0 <= lod < 2147483648 /\ advance_go base lod = base + lod + 1 /\ base < advance_go base lod.
+Proof. exact advance_go_exact. Qed.
+Print Assumptions C02_no_wrap.
+
 (* (3) no gap between acknowledged batches: every accepted batch is either durable in
        S3 or still pending (in flight / buffered) -- a failed flush drops nothing *)
 Theorem C02_no_gap : forall c evs s,
